@@ -237,10 +237,13 @@ def all_candidates():
     return _ALL
 
 
-def route_one(arg, month, dow_offset, carry=False):
+def route_one(arg, month, dow_offset, carry=False, zone="US/Pacific"):
     """returns (problems) for the date with the given month and day-of-week under the settings variant `arg`"""
     m = dm.DailyModel(settings=CUSTOM[arg] or None)
-    d0 = pd.Timestamp(year=2021, month=month, day=8, tz="US/Pacific")
+    # another model object with another calendar, built afterwards: models must not share calendar tables
+    decoy = dm.DailyModel(settings=CUSTOM["custom-week" if arg != "custom-week" else "custom-season"])
+    # a day in the first week of the month, at local midnight (east of UTC that instant is still the previous UTC day/month)
+    d0 = pd.Timestamp(year=2021, month=month, day=1, tz=zone)
     t = d0 + pd.Timedelta(days=(dow_offset - d0.dayofweek) % 7)
     df = pd.DataFrame({"temperature": [50.0], "observed": [1.0]}, index=pd.DatetimeIndex([t]))
     if carry:
@@ -266,7 +269,7 @@ def route_one(arg, month, dow_offset, carry=False):
 
 
 def replay_route(inp):
-    pr, d = route_one(inp["arg"], inp["month"], inp["dow"], inp.get("carry", False))
+    pr, d = route_one(inp["arg"], inp["month"], inp["dow"], inp.get("carry", False), inp.get("zone", "US/Pacific"))
     return bool(pr), "; ".join(pr[:3])
 
 
@@ -277,16 +280,18 @@ def run_route(case, arg):
         month = F.choose("month", list(range(1, 13)))
         dow = F.choose("dow", list(range(7)))
         carry = F.choose("carry", [False, True])
-        return month, dow, carry, route_one(arg, month, dow, carry)
+        zone = F.choose("zone", ["US/Pacific", "Australia/Sydney"] + (["Asia/Kolkata", "UTC"] if case.tier == "thorough" else []))
+        return month, dow, carry, zone, route_one(arg, month, dow, carry, zone)
 
     paths = case.explore(run)
     for p in paths:
         if p.outcome != "ret":
             case.rep["harness_errors"].append(f"route raised {p.value!r}")
             continue
-        month, dow, carry, (pr, d) = p.value
+        month, dow, carry, zone, (pr, d) = p.value
         case.prove(p, not pr, "every candidate split has exactly one component selecting the day: the one of its season and day type under the model's own settings",
-                   replay=("route", (lambda a, b, c: lambda mdl: dict(arg=arg, month=a, dow=b, carry=c))(month, dow, carry)))
+                   replay=("route", (lambda a, b, c, z: lambda mdl: dict(arg=arg, month=a, dow=b, carry=c, zone=z))(month, dow, carry, zone)))
+        case.regime("day in a zone east of UTC", zone != "US/Pacific")
         if len(case.rep["samples"]) < 2:
             case.sample(dict(settings=arg, date=d, candidates_checked=len(all_candidates())))
 
